@@ -1,13 +1,44 @@
 import Lean.Data.Json
 import Pko.Model.Panic
+import Pko.Model.TreeConfig
 /-! Scenario format, model printer and property monitor of the C19 line driver (kept in a library
 module without `main` so that `Pko.Props.C19` can state theorems about them).  One scenario format, `fn` selects the function under test.
 `model` prints what the model of the (fixed) Go code returns, in the format of the Go harnesses
 `harness/C19/*`; `monitor` evaluates the PROPERTY on an implementation line: it must not be a
 `PANIC …`, a `TIMEOUT` or a harness failure (`BAD-…`).  For the exploration functions (`…X`) the
-model is the constant "nopanic": those streams are exploration, not proof. -/
+model is the constant "nopanic": those streams are exploration, not proof.
+Stream `cli` (harness/C19/cli): `fn = "tree"` is one row of the config-resolution decision table of
+`kubectl package tree` (model `Pko.Model.TreeConfig`), `fn = "cliX"` is exploration of the
+Tree / Validate / Update / Build entry points of internal/cmd. -/
 namespace Pko.Drv.C19
 open Lean Pko.Model.Panic
+
+/-- `verifc19.CliProp`: a top-level property of the config schema (name, has default, required). -/
+structure CliProp where
+  n : String
+  d : Bool
+  r : Bool
+  deriving FromJson
+
+/-- `verifc19.CliTpl`: one `test.template[]` entry as written in manifest.yaml. -/
+structure CliTpl where
+  name : String
+  cfg : String
+  ck : Option (List String) := none
+  pkg : String
+  deriving FromJson
+
+/-- `verifc19.CliScn`: package shape + `kubectl package tree` options. -/
+structure CliScn where
+  scopes : Option (List String) := none
+  schema : Bool
+  props : Option (List CliProp) := none
+  tpls : Option (List CliTpl) := none
+  cp : String
+  cpk : Option (List String) := none
+  tc : String
+  cluster : Bool
+  deriving FromJson
 
 structure Scn where
   fn : String
@@ -25,6 +56,7 @@ structure Scn where
   place : Option String := none
   expr : Option Json := none
   imgs : Option Json := none
+  cli : Option CliScn := none
   deriving FromJson
 
 partial def toJVal : Json → JVal
@@ -100,12 +132,90 @@ inductive Out where
   | nopanic                 -- exploration functions: the model predicts nothing else
   | panic
   | bad (why : String)      -- scenario outside the modelled input grammar
+  | line (s : String)       -- stream cli, fn=tree: stage-by-stage line, printed as "tree <s>"
   deriving Repr
 
 def ofOutcome {α} (f : α → String) : Outcome α → Out
   | .ok a => .ok (f a)
   | .err => .err
   | .panic => .panic
+
+/-! ### stream `cli`, `fn = "tree"` -/
+section tree
+open Pko.Model.TreeConfig
+
+/-- What the model of `kubectl package tree` needs of a scenario. -/
+structure TreeIn where
+  scopes : List String
+  schema : Schema
+  src : List (String × Option Doc × TplPkg)   -- test templates as WRITTEN (config: absent | document)
+  opts : Opts
+
+/-- the templates as the manifest decoder hands them to the code (`context.config: null` = nil pointer) -/
+def TreeIn.tpls (i : TreeIn) : List TestTpl :=
+  i.src.map fun (n, c, p) => { name := n, config := decodeConfig c, pkg := p }
+
+def cliTpl (t : CliTpl) : Option (String × Option Doc × TplPkg) := do
+  let cfg ← match t.cfg with
+    | "" => some none
+    | "null" => some (some Doc.null)
+    | "obj" => some (some (Doc.obj (t.ck.getD [])))
+    | "scalar" => some (some Doc.other)
+    | _ => none
+  let pkg ← match t.pkg with
+    | "" => some ({} : TplPkg)
+    | "ns" => some { name := "pk-" ++ t.name, ns := "ns-" ++ t.name }
+    | "nons" => some { name := "pk-" ++ t.name, ns := "" }
+    | _ => none
+  return (t.name, cfg, pkg)
+
+def cliIn (c : CliScn) : Option TreeIn := do
+  let src ← (c.tpls.getD []).mapM cliTpl
+  let cp ← match c.cp with
+    | "" => some CfgPath.notGiven
+    | "missing" => some CfgPath.missing
+    | "obj" => some (CfgPath.file (.obj (c.cpk.getD [])))
+    | "null" | "empty" | "comment" => some (CfgPath.file .null)
+    | "scalar" | "list" => some (CfgPath.file .other)
+    | "bad" => some (CfgPath.file .garbage)
+    | _ => none
+  return { scopes := c.scopes.getD []
+           schema := if c.schema then some ((c.props.getD []).map fun p => { name := p.n, hasDefault := p.d, required := p.r }) else none
+           src := src
+           opts := { configPath := cp, testcase := c.tc, cluster := c.cluster } }
+
+def insertSorted (k : String) : List String → List String
+  | [] => [k]
+  | x :: xs => if k < x then k :: x :: xs else x :: insertSorted k xs
+
+/-- Go prints map keys sorted (`c19Keys`). -/
+def keysStr (ks : List String) : String :=
+  "[" ++ ",".intercalate (ks.foldr insertSorted []) ++ "]"
+
+/-- `verifkit.Esc` on the names the harness generates (no characters to escape). -/
+def esc (s : String) : String := if s.isEmpty then "%e" else s
+
+/-- The stage-by-stage line of the harness: where `RenderPackage` ended and with what. -/
+def treeOut (i : TreeIn) : Out :=
+  match renderPackage i.scopes i.schema i.tpls i.opts with
+  | .panic => .panic
+  | r =>
+    let rs := match r with | .ok _ => " render=ok" | _ => " render=err"
+    match getConfig i.tpls i.opts with
+    | .panic => .panic
+    | .err => .line ("cfg=err" ++ rs)
+    | .ok m =>
+      let c := match m with | .nil => "cfg=nilmap" | .mk ks => "cfg=ok" ++ keysStr ks
+      match admitConfig m i.schema with
+      | .panic => .panic
+      | adm =>
+        let ad := match adm with
+          | .ok a => if a.valid then " adm=ok" ++ keysStr a.m.keys else " adm=invalid"
+          | _ => " adm=err"
+        match getTemplateContext i.tpls i.opts with
+        | .ok ctx => .line (c ++ ad ++ " ctx=" ++ esc ctx.name ++ "/" ++ esc ctx.ns ++ rs)
+        | _ => .bad "ctx"   -- unreachable: a panic there is a panic of renderPackage above
+end tree
 
 def pairs (l : List (List String)) : Option (List (String × String)) :=
   l.mapM fun p => match p with | [a, b] => some (a, b) | _ => none
@@ -145,7 +255,11 @@ def modelOut (s : Scn) : Out :=
         ofOutcome toString (celPlace place (celCtx s) e)
       else .bad "place"
     | _, _ => .bad "place/expr"
-  | "copySourceItemX" | "relaxedX" | "renderX" | "structureX" | "importX" | "probeX" | "celX" => .nopanic
+  | "tree" =>
+    match s.cli.bind cliIn with
+    | none => .bad "cli"
+    | some i => treeOut i
+  | "copySourceItemX" | "relaxedX" | "renderX" | "structureX" | "importX" | "probeX" | "celX" | "cliX" => .nopanic
   | _ => .bad "fn"
 
 def render : Out → String
@@ -154,6 +268,7 @@ def render : Out → String
   | .nopanic => "nopanic"
   | .panic => "PANIC model"
   | .bad w => "unmodelled " ++ w
+  | .line l => "tree " ++ l
 
 def model (s : Scn) : String := render (modelOut s)
 
@@ -171,11 +286,31 @@ def classify (out : String) : Cls :=
   | none => .harness
   | _ => .normal
 
-/-- The property: the implementation neither panicked nor ran away. -/
+/-- Second word of a `PANIC <site> <message>` line: file:line of the innermost PKO frame. -/
+def panicSite (out : String) : String :=
+  match out.splitOn " " with
+  | _ :: site :: _ => site
+  | _ => "unknown"
+
+/-- The CLI entry point a `cli` stream scenario drives. -/
+def cliEntry (s : Scn) : String :=
+  if s.fn == "tree" then "Tree.RenderPackage"
+  else match s.n with
+    | some 1 => "Validate.ValidatePackage"
+    | some 2 => "Update.GenerateLockData"
+    | some 3 => "Build.BuildFromSource"
+    | _ => "Tree.RenderPackage"
+
+/-- The property: the implementation neither panicked nor ran away.  Stream `cli`: every call of a
+kubectl-package entry point ends in a result or an error — a panic is reported with the entry
+point and the panic site. -/
 def monitor (s : Scn) (out : String) : String :=
   match classify out with
   | .normal => "ok"
-  | .panic => "bad panic fn=" ++ s.fn ++ " " ++ (out.take 160).toString
+  | .panic =>
+    if s.fn == "tree" || s.fn == "cliX" then
+      "bad panic fn=" ++ s.fn ++ " entry=" ++ cliEntry s ++ " site=" ++ panicSite out ++ " " ++ (out.take 200).toString
+    else "bad panic fn=" ++ s.fn ++ " " ++ (out.take 160).toString
   | .timeout => "bad timeout fn=" ++ s.fn
   | .harness => "bad harness fn=" ++ s.fn ++ " " ++ (out.take 80).toString
 
